@@ -99,8 +99,12 @@ def marked_pair_is_ring_closure(r, slash_pairs):
 def make_case(rng):
     res = None
     many = rng.random() < 0.12       # cut (nearly) everywhere: more than ten fragments, two-digit coarse keys
+    tailed = not many and rng.random() < 0.15     # a small stereo unit on a long saturated tail (see gen_stereo_molecule)
     for _ in range(50):
-        res = S.gen_stereo_molecule(rng, p_ring=0.5, **(dict(n_db=rng.choice([2, 3]), max_extra=14) if many else {}))
+        if tailed:
+            res = S.gen_stereo_molecule(rng, n_db=rng.choice([1, 1, 2]), n_chiral=0, max_extra=rng.choice([0, 1, 2]), p_ring=0.0, p_tail=1.0)
+        else:
+            res = S.gen_stereo_molecule(rng, p_ring=0.5, **(dict(n_db=rng.choice([2, 3]), max_extra=14) if many else {}))
         if res is not None:
             break
     if res is None:
@@ -124,6 +128,9 @@ def make_case(rng):
             continue
         if rng.random() < 0.5 and len(cut_edges) < 4:
             cut_edges.append(e)
+    tail = g.graph.get('tail_bond')
+    if tail and frozenset(tail) in set(allowed) and frozenset(tail) not in cut_edges and rng.random() < 0.85:
+        cut_edges.append(frozenset(tail))       # the long tail as a fragment of its own
     if chiral and rng.random() < 0.35:
         # isolate a stereocentre: every bond around it is cut, the centre becomes a fragment of its own
         c = rng.choice(sorted(chiral))
@@ -239,6 +246,8 @@ def make_case(rng):
         feats.add('stereo_double_bond_in_ring')
     if origin:
         feats.add('marked_substituent_shared_between_fragments')
+    if tail:
+        feats.add('long_alkyl_tail_fragment')
     if bracket_p:
         feats.add('bracket_atoms')
     items = list(frags.items())
